@@ -169,4 +169,24 @@ def nLine (ws : List String) : String := Id.run do
   if mm ≠ multi then issues := issues ++ [s!"DIFF multi-column score: model {mm} impl {multi}"]
   if issues.isEmpty then "ok" else " ## ".intercalate issues
 
+/-- `W text= app= status= tried= matched= bad= oldatoms= newatoms=` — the rule of the append shortcut, evaluated on the real
+    code (C07): with status Update, a haystack that matches the new pattern and not the old one is a violation -/
+def wLine (ws : List String) : String := Id.run do
+  let get := fun k => (field ws k).getD ""
+  let text := if get "text" = "-" then [] else parseCps (get "text")
+  let app := parseCps (get "app")
+  let status := (get "status").toNat?.getD 0
+  let mut issues : List String := []
+  if status = 1 && get "bad" ≠ "-" then
+    issues := issues ++ [s!"ORACLE C07 the append shortcut was taken (status Update) for text {text} ++ {app}, but the haystack {parseCps (get "bad")} matches the new pattern and not the old one: the edit is not a narrowing"]
+  -- model of the rule, for ASCII texts (no segmentation needed)
+  if (text ++ app).all (· < 128) then
+    let seg : Seg := fun c => c.map (fun _ => 1)
+    let oldA := parsePattern seg text .smart .smart
+    let newA := parsePattern seg (text ++ app) .smart .smart
+    let m := (reparseStatus .unchanged oldA newA true).rank
+    if m ≠ status then issues := issues ++ [s!"DIFF status of reparse(append) for {text} ++ {app}: model {m} impl {status}"]
+    if showAtoms newA ≠ get "newatoms" then issues := issues ++ [s!"DIFF atoms of {text} ++ {app}: model {showAtoms newA} impl {get "newatoms"}"]
+  if issues.isEmpty then "ok" else " ## ".intercalate issues
+
 end NucleoVerif.Driver
